@@ -328,6 +328,9 @@ def _network_metrics(tier, seed):
             w.add_curve("pc", "HEAD", [(0.0, 60.0), (0.1, 45.0), (0.2, 10.0)])
             if rel.endswith("power_pump"):
                 w.add_pump("PU", "R1", "J0", pump_type="POWER", pump_parameter=25000.0)       # a constant-power pump supplies power too
+                # ... and none while it is shut (the second reservoir then feeds the junctions)
+                from wntr.network.controls import Control, ControlAction
+                w.add_control("shut", Control._time_control(w, 3600, "SIM_TIME", False, ControlAction(w.get_link("PU"), "status", 0)))
             else:
                 w.add_pump("PU", "R1", "J0", pump_type="HEAD", pump_parameter="pc")
             w.add_pipe("P1", "J0", "J1", length=300, diameter=0.3, roughness=100)
